@@ -1,5 +1,7 @@
 package main
 
+import "bytes"
+
 // Independent framer for the NetBIOS session service, written from
 // RFC 1002 section 4.3.1 (GENERAL FORMAT OF SESSION PACKETS):
 //
@@ -23,20 +25,26 @@ const (
 	refMaxPayload         = 0x1FFFF
 )
 
-// refEncode frames p as one SESSION MESSAGE. ok is false when p cannot be
-// expressed by the 17-bit length.
+// refEncodeHeader builds the header of a SESSION MESSAGE carrying n octets. ok
+// is false when n cannot be expressed by the 17-bit length.
+func refEncodeHeader(n int) (h [4]byte, ok bool) {
+	if n < 0 || n > refMaxPayload {
+		return h, false
+	}
+	h[0] = refTypeSessionMessage
+	h[1] = byte(n >> 16 & 1) // E: the high-order length bit
+	h[2] = byte(n >> 8)
+	h[3] = byte(n)
+	return h, true
+}
+
+// refEncode frames p as one SESSION MESSAGE.
 func refEncode(p []byte) (frame []byte, ok bool) {
-	n := len(p)
-	if n > refMaxPayload {
+	h, ok := refEncodeHeader(len(p))
+	if !ok {
 		return nil, false
 	}
-	frame = make([]byte, 4+n)
-	frame[0] = refTypeSessionMessage
-	frame[1] = byte(n >> 16 & 1)
-	frame[2] = byte(n >> 8)
-	frame[3] = byte(n)
-	copy(frame[4:], p)
-	return frame, true
+	return append(append(make([]byte, 0, 4+len(p)), h[:]...), p...), true
 }
 
 // refHeader decodes a 4-octet session header.
@@ -92,14 +100,6 @@ func firstDiff(a, b []byte) int {
 	return len(a)
 }
 
-func bytesEqual(a, b []byte) bool {
-	if len(a) != len(b) {
-		return false
-	}
-	for i := range a {
-		if a[i] != b[i] {
-			return false
-		}
-	}
-	return true
-}
+// bytesEqual is the runtime's memequal (the race detector does not instrument
+// it octet by octet, unlike a hand-written loop).
+func bytesEqual(a, b []byte) bool { return bytes.Equal(a, b) }
